@@ -1297,6 +1297,19 @@ class Clip(Family):
             if st != "err" or mod != "notImplemented":
                 res.mismatch("clip_range", rc, "NotImplementedError", js(mod))
             return
+        # spec (containment) on the IMPLEMENTATION's answer, whatever the model says: a parameter t of the clipped curve whose exact
+        # distance-polynomial value lies in the fat line [d_min, d_max] (every true intersection is such a t) must not be clipped
+        # away; allowance 2^-40 for the rounding of the two quotients (the grid parameters are k/64)
+        d2i = [a * p[0] + b * p[1] + c for p in p2]
+        tol = Fr(1, 2 ** 40)
+        for k in range(0, 65):
+            t = Fr(k, 64)
+            dt = X.bern(d2i, t)
+            if dmin <= dt <= dmax and not (got[0] - tol <= t <= got[1] + tol):
+                res.failure("clip-range:rejects-true-hit", "clip_range(%s, %s) returns (%s, %s) but the point of the clipped curve at "
+                            "t = %s has distance value d = %s inside the fat line [%s, %s]: a parameter range that may contain "
+                            "intersections is clipped away" % (js(n1), js(n2), float(got[0]), float(got[1]), t, dt, dmin, dmax), rc)
+                break
         if st != "ok" or got != [rq(mod[0]), rq(mod[1])]:
             res.mismatch("clip_range", rc, js(got), js(mod) if st == "ok" else "err " + str(mod),
                          "E: s_min, s_max are correctly rounded exact quotients")
